@@ -290,9 +290,37 @@ func (tb TemporalBound) String() string {
 		return "_"
 	case NowBound:
 		return "now"
+	case DurationTemporalBound:
+		return formatDurationBound(tb.Timestamp)
 	default:
 		return "?"
 	}
+}
+
+// formatDurationBound prints a duration in the source syntax for durations
+// (a number followed by one of the units d, h, m, s, ms), using the largest
+// unit that represents the value exactly. Values that are not a whole number
+// of milliseconds have no source form and are printed in Go's notation.
+func formatDurationBound(nanos int64) string {
+	units := []struct {
+		suffix string
+		nanos  int64
+	}{
+		{"d", int64(24 * time.Hour)},
+		{"h", int64(time.Hour)},
+		{"m", int64(time.Minute)},
+		{"s", int64(time.Second)},
+		{"ms", int64(time.Millisecond)},
+	}
+	if nanos == 0 {
+		return "0s"
+	}
+	for _, u := range units {
+		if nanos%u.nanos == 0 {
+			return fmt.Sprintf("%d%s", nanos/u.nanos, u.suffix)
+		}
+	}
+	return time.Duration(nanos).String()
 }
 
 // Equals returns true if two temporal bounds are equal.
